@@ -6,7 +6,6 @@ import (
 	"bufio"
 	"bytes"
 	"context"
-	"crypto/rand"
 	"encoding/base64"
 	"fmt"
 	"io"
@@ -229,7 +228,7 @@ func handshakeRequest(ctx context.Context, urls string, opts *DialOptions, copts
 
 func secWebSocketKey(rr io.Reader) (string, error) {
 	if rr == nil {
-		rr = rand.Reader
+		rr = randReader()
 	}
 	b := make([]byte, 16)
 	_, err := io.ReadFull(rr, b)
